@@ -278,6 +278,13 @@ fn inline_job(case: &InlineCase, lines: Vec<String>) -> Job {
                     PREFIX_FILE.0.to_string(),
                     PREFIX_FILE.1.as_bytes().to_vec(),
                 )))
+                // Decoys: files whose name is the bare name as written, without `.tex`. A name
+                // written without an extension means `name.tex`; the decoys must never be read.
+                .chain(
+                    (0..case.files.len())
+                        .filter(|i| !file_name(*i).contains('.'))
+                        .map(|i| (file_name(i), format!("DECOY{i}\n").into_bytes())),
+                )
                 .collect(),
             terminal: vec![],
             fs_read_faults: vec![],
@@ -916,6 +923,8 @@ fn stream_job(case: &StreamCase) -> (Job, Vec<(usize, usize)>) {
                 .filter(|(_, (_, m, _))| !*m)
                 .map(|(i, (c, _, _))| (stream_file_disk(i), c.clone().into_bytes()))
                 .chain(std::iter::once(("s.tex".to_string(), b"TRUNCATED\n".to_vec())))
+                // decoys under the bare names (see the inline job)
+                .chain([("s0".to_string(), b"DECOY\n".to_vec()), ("s_1".to_string(), b"DECOY\n".to_vec())])
                 .collect(),
             terminal: case.terminal.clone(),
             fs_read_faults: vec![],
